@@ -317,7 +317,7 @@ Section Proofs.
   (** reset returns every logical field to its initial value *)
   Lemma col_reset_init : forall e c, col_ok e c -> set_ordinal e 0 (col_reset c) = col_init (c_cfg c).
   Proof.
-    intros e [cc p en sw o a] (Hp & He & Ho). cbn in *. unfold col_init. cbn.
+    intros e [cc p en sw o a] (Hp & He & Ho). cbn in *. unfold col_init, set_ordinal. cbn.
     rewrite Hp. f_equal.
     - destruct sw; auto.
     - destruct e; auto.
